@@ -150,6 +150,7 @@ fn gen(ctx: &GenCtx, i: u64, prop: &str) -> Option<Run> {
         4 => "a\",\"exp\":null,\"b".to_string(),
         5 => "exp\u{0}".to_string(),
         6 => " exp".to_string(),
+        7 if r.chance(1, 2) => (*r.pick(&["Exp", "EXP", "Iat", "NBF", "Nbf", "AUD", "Iss", "A", "JTI"])).to_string(),
         _ => "a".to_string(),
     };
     let key_b: String = if r.chance(1, 5) { format!("{}😀{}", "b".repeat(62), "b".repeat(8)) } else { "b".to_string() };
@@ -167,7 +168,8 @@ fn gen(ctx: &GenCtx, i: u64, prop: &str) -> Option<Run> {
                 rb.push(set(ClaimSpec::Exp(render_canonical(&mut r, t - t.rem_euclid(NS)))));
             }
             Sym::Nbf => {
-                let t = created - r.range(2 * NS, 10 * DAY).min(created - T_1971 + NS) + NS;
+                // usually in the past; sometimes beyond the default expiry (a token valid "from tomorrow")
+                let t = if r.chance(1, 4) { created + r.range(HOUR, 3 * DAY) } else { created - r.range(2 * NS, 10 * DAY).min(created - T_1971 + NS) + NS };
                 rb.push(set(ClaimSpec::Nbf(render_canonical(&mut r, t - t.rem_euclid(NS)))));
             }
             Sym::Iat => {
